@@ -42,7 +42,8 @@ func tableMaxN(L *LState) int {
 func tableRemove(L *LState) int {
 	tbl := L.CheckTable(1)
 	if L.GetTop() == 1 {
-		L.Push(tbl.Remove(-1))
+		// the default position is #t (the raw array part may carry trailing nils left by `t[#t] = nil`)
+		L.Push(tbl.Remove(tbl.Len()))
 	} else {
 		L.Push(tbl.Remove(L.CheckInt(2)))
 	}
